@@ -205,6 +205,12 @@ def run(P, rep, tier):
                     rep.violation(r4, 'include:%s' % rule['target'], loc(rule), 'include(%r) names no state' % rule['target'])
                 continue
             all_rules.append((state, i, rule))
+            acts_ = rule['action'][1] if rule['action'][0] == 'bygroups' else [rule['action']]
+            for a_ in acts_:
+                if a_[0] == 'using' and a_[1] != 'this' and a_[1].split('.')[-1] not in ('JsonLexer', 'DiffLexer'):
+                    raise AnalysisError('rule %s hands text to the foreign lexer %s: only JsonLexer and DiffLexer are in the trusted base '
+                                        '(lossless, and error-free on the content the writer produces for meta / diff sections); whether %s '
+                                        'is lossless and error-free on arbitrary section content is not known' % (key, a_[1], a_[1]))
             try:
                 tree = P_.parse(rule['pattern'], flags)
             except re.error as e:
